@@ -86,7 +86,7 @@ MUTANTS = [
     ('c05-foreign-components-from-replicated-description-unfixed', 'C05', 'c05', 150, 'python/experiment/model/graph.py',
      "        foreign_components = self.configuration._unreplicated.get_component_identifiers(True, False)\n",
      "        foreign_components = self._concrete.get_component_identifiers(True, False)\n"),
-    ('c05-done-placeholder-skipped-before-matching-unfixed', 'C05', 'c05rt', 100, 'python/experiment/model/graph.py',
+    ('c05-done-placeholder-skipped-before-matching-unfixed', 'C05', 'c05rt', 200, 'python/experiment/model/graph.py',
      "            remaining_looped_ids.difference_update(matched_components)\n\n            # VV: Finished/Shutdown/Failed placeholders do not need to be updated, as they're already done\n            last_state = self._placeholders.get(p_ref, {}).get('state', experiment.model.codes.RUNNING_STATE)\n",
      "            last_state = self._placeholders.get(p_ref, {}).get('state', experiment.model.codes.RUNNING_STATE)\n            if last_state == experiment.model.codes.RUNNING_STATE:\n                remaining_looped_ids.difference_update(matched_components)\n"),
     ('c07-platform-global-blueprint-below-default-stage-blueprint-unfixed', 'C07', 'c07', 200, 'python/experiment/model/frontends/flowir.py',
@@ -199,7 +199,9 @@ def sensitivity(only=None):
             open(p, 'w').write(s)
             t0 = time.time()
             rc, o = run(['./run', chk, '--runs', str(runs), '--no-evidence', '--no-shrink'], env={'VERIF_REPO': root})
-            caught = rc == 1 and ('VIOLATION property=%s' % prop) in o
+            # rc 2 = the mutant also drove some run into a wall timeout (a busy loop in mutated code): the violation
+            # line is what counts
+            caught = rc in (1, 2) and ('VIOLATION property=%s' % prop) in o
             sigs = sorted(set(l.split('sig=')[1].split(' ')[0] for l in o.splitlines() if l.startswith('violation sig=')))
             out[name] = {'property': prop, 'check': chk, 'caught': caught, 'rc': rc, 'signatures': sigs[:6],
                          'wall_s': round(time.time() - t0, 1), 'tail': o.splitlines()[-1][:200] if o else ''}
